@@ -107,9 +107,20 @@ def exec_case(p, res):
         snaps = [(o, take_snap(o), w) for o, w in objs]
         ys = {}
         for backend in ('cpp', 'py'):
+            kw = {}
+            if p.get('exact_nswp') and len(p['N']) > 1:
+                # exact sweep budget (see c11): each backend gets exactly the number of sweeps it reports using
+                seams.seed_global(p['tseed'])
+                try:
+                    ns = c11.sweeps_used(p, A, B, guess, use_cpp=(backend == 'cpp'))
+                    if ns and ns >= 1:
+                        kw['nswp'] = int(ns)
+                        core.bump(stats, 'probe.exact_sweep_budget_' + backend)
+                except Exception:
+                    pass
             seams.seed_global(p['tseed'])
             try:
-                ys[backend] = A.fast_matvec(B, eps=p['eps'], initial=guess, use_cpp=(backend == 'cpp'))
+                ys[backend] = A.fast_matvec(B, eps=p['eps'], initial=guess, use_cpp=(backend == 'cpp'), **kw)
             except Exception as e:
                 out.append(core.violation(PROP, 'RAISED', 'fast_matvec', backend + ':' + type(e).__name__, '%s backend raised %s: %s' % (backend, type(e).__name__, str(e)[:120]), desc))
                 ys[backend] = None
